@@ -102,6 +102,48 @@ def run(ctx):
         ctx.check(s1 == s2, "same operator gives a different region the second time", desc, s1, s2)
         ctx.check(s1 == s3, "operator on fresh deep copies gives a different region", desc, s1, s3)
         ctx.check((float(A), float(B)) == (fa0, fb0), "float(shape) changed after operators and queries", desc)
+    # ---- shapes of every kind: warm every cache, transform in place, then every answer must equal that of a freshly BUILT twin
+    from harness.props.c04 import rebuild
+    from harness.props.c09 import apply_desc
+    for it in range(12 if ctx.quick else 500):
+        kind = shapes.DEFINED[it % len(shapes.DEFINED)]
+        S, d = shapes.make(rng, kind, rng.randint(-2, 2), rng.randint(-2, 2), drv)
+        probeS, dp = shapes.make(rng, "simple", rng.randint(-2, 2), rng.randint(-2, 2), drv)
+        seq = []
+        for _ in range(rng.randint(1, 3)):
+            seq.append(("move", gen.rat(rng, -9, 9), gen.rat(rng, -9, 9)) if rng.random() < 0.5 else
+                       ("scale", F(rng.choice([-3, -2, -1, 1, 2, 3]), rng.choice([1, 2])), F(rng.choice([-2, -1, 1, 2, 3]), rng.choice([1, 3]))))
+        # mirrors flip orientation: keep an even number of sign changes per axis pair so that the kind of shape is preserved
+        if sum(1 for t in seq if t[0] == "scale" and (t[1] < 0) != (t[2] < 0)) % 2 == 1:
+            seq.append(("scale", F(-1), F(1)))
+        desc = {"kind": kind, "shape": core.jsonable(d), "sequence": core.jsonable(seq)}
+        def battery(X, P):
+            pts = [(F(1, 3), F(1, 5)), (F(-7, 2), F(9, 4)), tuple(X.jordans[0].vertices[0])]
+            b = X.box()
+            out = [float(X), tuple(b.lowpt), tuple(b.toppt), tuple(p in X for p in pts), tuple(round(float(j), 9) for j in X.jordans), P in X, X in P]
+            out += [tuple((tuple(sb.box().lowpt), tuple(sb.box().toppt), round(float(sb), 9)) for sb in getattr(X, "subshapes", ()))]
+            return out
+        try:
+            with impl.time_limit(240):
+                w0 = battery(S, probeS)                       # warm every cache
+                for t in seq:
+                    (S.move if t[0] == "move" else S.scale)(t[1], t[2])
+                    battery(S, probeS)
+                live = battery(S, probeS)
+                again = battery(S, probeS)
+                twin = rebuild(apply_desc(d, seq))
+                fresh = battery(twin, shapes.simple(dp[1]))
+                op_live = drv.ask("canon " + core.eshape(S | probeS)) if drv.ask(f"transversal {shapes.enc_desc(apply_desc(d, seq))} {shapes.enc_desc(dp)}") == "T" else None
+                op_fresh = drv.ask("canon " + core.eshape(twin | shapes.simple(dp[1]))) if op_live is not None else None
+        except impl.Timeout:
+            ctx.fail("queries did not return", desc); continue
+        except Exception as ex:
+            ctx.fail("query raised after in-place transformations", desc, got=repr(ex)); continue
+        ctx.case("warm-transform-query", (repr(d), repr(seq)))
+        ctx.count("kind:" + kind)
+        ctx.check(live == again, "asking twice changed the answers", desc, live, again)
+        ctx.check(live == fresh, "transformed shape answers differently from a freshly built one", desc, fresh, live)
+        ctx.check(op_live == op_fresh, "operator with a third shape differs from the freshly built twin", desc)
     # ---- same computation in fresh processes, different hash seeds
     seeds = ["0", "1"] if ctx.quick else ["0", "1", "42", "random", "4242"]
     outs = []
